@@ -272,6 +272,25 @@ def real_model_job(interp, c, case):
     _rep(c, s_and(J2[ja, ja] == -2 * k2 * slope, J2[jb, ja] == k2 * slope, J2[ja, jb] == 0, J2[jb, jb] == 0),
          "[%s] real model 2A -> B: the Jacobian is that of the deterministic law k2*A^2 (d/dA = 2*k2*A%s)" % (
              method, "" if "central" in method else " +/- k2*h from the one-sided scheme"), "jacobian of a real model (dimer)", rp2, syms2)
+    # a third real model: a general rate over a species called E (and parameters I, N - names that are also sympy constants): bilinear, so exact
+    kc = c.real("kc", lo=0, lo_strict=True)
+    rp3 = dict(kind="real_model", method=method, model="names")
+    try:
+        M3 = T.ns["Model"](species=["E", "S"], parameters=[("N", kc), ("I", k2)], reactions=[(["S"], [], "general", {"rate": "N*E*S + I*S"})])
+    except Exception as e:           # a legal model: not being able to build it is a failure of the property, not of the harness
+        _rep(c, False, "[%s] real model (names): the model cannot be built (%s: %s)" % (method, type(e).__name__, str(e)[:80]), "real model (names) cannot be built", rp3, {})
+        return
+    o3 = M3.get_species_list()
+    ie, is_ = o3.index("E"), o3.index("S")
+    x3 = [0, 0]
+    x3[ie], x3[is_] = a, b
+    J3 = A_.ns["py_get_jacobian"](M3, list(x3), method=method)
+    _rep(c, s_and(J3[is_, ie] == -kc * b, J3[is_, is_] == -kc * a - k2, J3[ie, ie] == 0, J3[ie, is_] == 0),
+         "[%s] real model S -> 0 at rate N*E*S + I*S (species E, parameters N, I): the Jacobian row is (-N*S, -N*E - I)" % method, "jacobian of a real model (names)", rp3,
+         {"N": kc, "I": k2, "E": a, "S": b})
+    Z3 = A_.ns["py_get_sensitivity_to_parameter"](M3, list(x3), "N", method=method)
+    _rep(c, s_and(Z3[is_] == -a * b, Z3[ie] == 0), "[%s] real model (names): d f / d N = (0, -E*S)" % method, "sensitivity of a real model (names)", rp3,
+         {"N": kc, "I": k2, "E": a, "S": b})
     Z2 = A_.ns["py_get_sensitivity_to_parameter"](M2, list(x2), "k2", method=method)
     _rep(c, s_and(Z2[ja] == -2 * a * a, Z2[jb] == a * a), "[%s] real model 2A -> B: d f / d k2 = (-2A^2, A^2)" % method, "sensitivity of a real model (dimer)", rp2, syms2)
 
